@@ -163,6 +163,9 @@ void AbstractParameterAliasable::aliasParameters(map<string, string>& unparsedPa
       plpars.addParameter(p2.release());
       plpars.parameter(it->first);
       aliasParameters(it->second, it->first);
+      // The alias takes the value its source has now, through the usual update route,
+      // so that parameters already aliased to it follow:
+      setParameterValue(it->first, getParameterValue(it->second));
       if (verbose)
         ApplicationTools::displayResult("Parameter alias found", it->first + " -> " + it->second + " = " + TextTools::toString(pp->getValue()));
       it = unparsedParams.erase(it);
@@ -173,8 +176,6 @@ void AbstractParameterAliasable::aliasParameters(map<string, string>& unparsedPa
     else
       unp_s = unparsedParams.size();
   }
-
-  matchParametersValues(plpars);
 }
 
 
